@@ -237,6 +237,13 @@ def noncontig_boundary(n, fam='NCB'):
         add([(64, 64), (0, 64)], kinds=['n', 'i'])
         add([(1, 63), (64, 64), (0, 1)], kinds=['n', 'i'])                # pieces of a u128 value crossing bit 64 off the byte grid
         add([(100, 28), (0, 100)], kinds=['n'])
+    # lists that cover the whole base (on native bases: the whole storage integer) and permute it, the first range starting at bit 0
+    if n >= 8 and n % 4 == 0:
+        q = n // 4
+        add([(0, q), (3 * q, q), (2 * q, q), (q, q)])
+        add([(0, 2 * q), (3 * q, q), (2 * q, q)])
+        add([(0, 1), (2, n - 2), (1, 1)])
+        add([(0, q), (2 * q, 2 * q), (q, q)])
     # many pieces: more than 8 / 16 / 32 / 64 ranges in one list
     for k in (9, 10, 12, 16, 17, 32, 33, 64, 65, 128):
         if k <= n:
